@@ -1644,6 +1644,18 @@ bool SchindelhauerTMCG::TMCG_VerifyStackEquality
 			// the received stack secret must fit the stacks
 			if (ss.size() != s.size())
 				throw false;
+			// the cards and the received card secrets must have the
+			// dimensions of this instance (otherwise masking asserts)
+			for (size_t j = 0; j < ss.size(); j++)
+			{
+				if ((ss[j].second.r.size() != TMCG_Players) ||
+					(ss[j].second.r[0].size() != TMCG_TypeBits) ||
+					(s[j].z.size() != TMCG_Players) ||
+					(s[j].z[0].size() != TMCG_TypeBits) ||
+					(s2[j].z.size() != TMCG_Players) ||
+					(s2[j].z[0].size() != TMCG_TypeBits))
+						throw false;
+			}
 			// verify equality proof
 			if (mpz_get_ui(foo) & 1UL)
 				TMCG_MixStack(s2, s4, ss, ring, false);
